@@ -172,17 +172,21 @@ class VNet:
 
     # UDP: deliver a datagram to whoever is bound to the port, through the loop, so that an
     # exception in the protocol callback reaches the loop's exception handler as in production
+    SOURCES = [("10.0.0.99", 40000), ("10.0.0.99", 40001), ("192.168.1.33", 20002), ("10.0.0.7", 20003), ("255.255.255.255", 0), ("0.0.0.0", 1)]
+    nsrc = 0
+
     def send_udp(self, loop, port: int, data: bytes) -> bool:
         ep = self.udp.get(port)
         if ep is None or ep.closing:
             return False
-        loop.call_soon(self._deliver, ep, data)
+        VNet.nsrc += 1
+        loop.call_soon(self._deliver, ep, data, self.SOURCES[(VNet.nsrc * 7 + VNet.nsrc // 5) % len(self.SOURCES)])
         return True
 
     @staticmethod
-    def _deliver(ep: VUdp, data: bytes):
+    def _deliver(ep: VUdp, data: bytes, src=("10.0.0.99", 40000)):
         if not ep.closing:       # a closed socket is no longer read, whatever its buffer holds
-            ep.protocol.datagram_received(data, ("10.0.0.99", 40000))
+            ep.protocol.datagram_received(data, src)
 
 
 class VLoop(asyncio.SelectorEventLoop):
